@@ -1,11 +1,14 @@
 """C05 – register constraints as a history invariant: case generation."""
 import random
 from vf import Case
+from gen import constants
 from props.regcommon import TYPES, SIZE, BITS, checks, hexv, pat, BOUNDS, default_for, values, float_classes
 
 ID = "C05"
 DRIVER = "drv_regtable"
 HARNESS = "h_regtable"
+GEN = [constants.gen]
+TIE = ['Ufw.Tie.RegTable']
 RULE = ("operation sequences (typed set, unchecked set excluded, bit set, bit clear, block write, sanitise, interleaved with reads of every "
         "register) of length 100 (thorough 600) over generated tables mixing all register types and constraint kinds, operands biased to the "
         "constraint bounds; arbitrary out-of-band corruption (random atoms, NaN/subnormal patterns, out-of-range values) poked into the storage "
